@@ -20,7 +20,7 @@ MOD = "debian._deb822_repro.tokens"
 
 ATOMS = ["\n", " \n", "\t \n", "#c\n", "# \n", " x\n", "\tx y\n", " #n\n", "A: b\n", "A:\n", "A:b\n", "A:  b  \n", "a: c\n",
          "garbage\n", ": x\n", "A b\n", "Ä: ü\n", "A: b\u00a0c\n", "A: b\x0cc\n", "A: b\rc\n", "A: \u2028\n", " \u00a0\n", "\x0c\n",
-         "A:: :\n", "-A: x\n", "#\n"]
+         "A:: :\n", "-A: x\n", "#\n", "A: b\x0c\n", "A: b \u00a0\n", " x\x1f\n"]
 
 
 def check_lines(real_parse, real_tok, lines, t, mode):
@@ -38,6 +38,22 @@ def check_lines(real_parse, real_tok, lines, t, mode):
     return False
 
 
+def replay_line(line):
+    """a witness line of a refuted lemma, run through the real parser alone and in front of another field"""
+    import debian._deb822_repro as repro
+    out = {"line": line, "confirmed": False}
+    for lines in ([line], [line if line.endswith("\n") else line + "\n", "Z: z\n"]):
+        try:
+            doc = repro.parse_deb822_file(lines, accept_files_with_error_tokens=True, accept_files_with_duplicated_fields=True)
+            dumped = doc.dump()
+        except Exception as e:
+            dumped = "raised %r" % (e,)
+        if dumped != "".join(lines):
+            out.update(confirmed=True, lines=lines, dump=dumped)
+            break
+    return out
+
+
 def regex_lemmas(ctx, real):
     fq = MOD + ":_RE_FIELD_LINE"
     try:
@@ -53,10 +69,11 @@ def regex_lemmas(ctx, real):
         smt, var = env.claim_subset(z3.Intersect(env.lang(pf, "match"), LINE), env.lang(pf, "fullmatch"))
         ctx.vc("R-01a every _RE_FIELD_LINE prefix match of a line is a match of the whole line", fq, smt, theory="str",
                model_vars=[var], kind="rx",
-               replay=lambda m: {"confirmed": False, "line": env.realize(m.get("w", ""))})
+               replay=lambda m: replay_line(env.realize(m.get("w", ""))))
         smt, var = env.claim_subset(z3.Intersect(env.lang(pw, "match"), LINE), env.lang(pw, "fullmatch"))
         ctx.vc("R-01b every _RE_WHITESPACE_LINE prefix match of a line is a match of the whole line",
-               MOD + ":_RE_WHITESPACE_LINE", smt, theory="str", model_vars=[var], kind="rx")
+               MOD + ":_RE_WHITESPACE_LINE", smt, theory="str", model_vars=[var], kind="rx",
+               replay=lambda m: replay_line(env.realize(m.get("w", ""))))
         smt, var = env.smt_empty(z3.Intersect(env.lang(pf, "match"), LINE))
         ctx.vc("probe: no line matches _RE_FIELD_LINE (must NOT be discharged)", fq, smt, theory="str", probe=True, kind="probe")
     except Unsupported as e:
